@@ -3,8 +3,10 @@ from props_common import COMMON_TRUSTED
 CONFIG = {
     "areas": ["handshake"],
     "lean": ["VProps.C15"],
-    "sources": ["VProps/C15.lean", "VModel/Handshake.lean", "VModel/HandshakeSpec.lean", "VModel/FedCheck.lean"],
-    "theorems": ["V.C15.sendJoin_ok_implies_guards", "V.C15.sendJoin_signs_unmodified", "V.C15.sendJoin_decision_table", "V.C15.makeJoin_ok_implies_guards", "V.C15.makeJoin_ok_implies_spec", "V.C15.pickAuthoriser_some", "V.C15.rulesLoop_some", "V.C15.restrictedStage_err_class", "V.C15.makeJoin_decision_table", "V.C15.makeLeave_ok_implies_guards", "V.C15.makeLeave_decision_table", "V.C15.invite_ok_implies_guards", "V.C15.invite_signs_unmodified", "V.C15.invite_decision_table", "V.C15.inviteCommonChecks_table", "V.C15.performJoin_ok_implies", "V.C15.inviteV3_ok_implies", "V.C15.inviteV3_decision_table"],
+    "sources": ["VProps/C15.lean", "VModel/Handshake.lean", "VModel/HandshakeSpec.lean", "VModel/HandshakeInvite.lean", "VModel/HandshakeInviteSpec.lean", "VModel/FedCheck.lean"],
+    "theorems": ["V.C15.sendJoin_ok_implies_guards", "V.C15.sendJoin_signs_unmodified", "V.C15.sendJoin_decision_table", "V.C15.makeJoin_ok_implies_guards", "V.C15.makeJoin_ok_implies_spec", "V.C15.pickAuthoriser_some", "V.C15.rulesLoop_some", "V.C15.restrictedStage_err_class", "V.C15.makeJoin_decision_table", "V.C15.makeLeave_ok_implies_guards", "V.C15.makeLeave_decision_table", "V.C15.invite_ok_implies_guards", "V.C15.invite_signs_unmodified", "V.C15.invite_decision_table", "V.C15.inviteCommonChecks_table", "V.C15.performJoin_ok_implies", "V.C15.inviteV3_ok_implies", "V.C15.inviteV3_decision_table",
+                 "V.C15.performInvite_ok_implies_guards", "V.C15.performInvite_decision_table", "V.C15.performInvite_no_panic",
+                 "V.C15.piPrepare_table", "V.C15.sendJoinPseudo_ok_implies_guards", "V.C15.sendJoinPseudo_decision_table"],
     "rule": "handshake: each handler is run with mock queriers / verifier / template builder / federation client built from the op line; "
             "parameters start on the accepting path and deviate independently with probability 12% (40% in a quarter of the ops): room version "
             "(known / unknown / not offered by the remote), origin vs user domain, local server in room, event shape (membership incl. missing and "
@@ -12,7 +14,16 @@ CONFIG = {
             "decode, authorised-via local / remote / invalid / non-string), signature oracle good / bad / failing, membership querier answers incl. errors, "
             "join rules (public / invite / restricted / knock_restricted, allow lists with foreign types, invalid and null entries), pending invites, "
             "power levels (invite level 0 / 50, unparseable, wrong state key), create event (v12 creators), per-room residency x joined users, template "
-            "builder outcomes, known room / stripped state / state querier answers for invites, send_join responses for PerformJoin; compared: error class "
+            "builder outcomes, known room / stripped state / state querier answers for invites, send_join responses for PerformJoin; "
+            "PerformInvite: both room-version families (every user-ID version, org.matrix.msc4014, unknown versions) x local / remote invitee, template "
+            "(type, membership incl. missing / non-string / null / unparseable content, state key, room, sender), stripped state given / generated / "
+            "unmarshalable, each querier failing (sender ID, membership, latest events, auth events, sender-ID creator, store callback), state events "
+            "with a non-state event or a nil PDU, Allowed oracle, oversized template, caller-contract breaches (each nil argument, nil signing key), and "
+            "the remote's answer: SendInvite error / nil / echo / another event; SendInviteV3 error / nil / unparseable / an event that is not a member "
+            "event, lacks a state key, has another membership, room or sender, is unsigned, signed with the wrong key, carries a forged inviter signature; "
+            "a fixed prologue runs every remote-answer class and every breach alone on the accepting path; HandleSendJoin for org.matrix.msc4014: "
+            "mxid_mapping absent / null / unsigned / signed by another server / malformed, verifier good / bad / failing, store callback failing, "
+            "self-signature good / wrong key / missing / corrupt; compared: error class "
             "(Matrix code / internal / other) or response, signer, real ed25519 verification of the returned event's local signature, event unmodified. "
             "spec stream = the guard predicate of VModel.HandshakeSpec (a refusal is demanded where it is false). non-trivial = every op (each is a distinct "
             "parameter combination)",
@@ -20,10 +31,12 @@ CONFIG = {
     "trusted": COMMON_TRUSTED + [
         "event-shape facts of the abstract records are read off the concrete events by the accessor models of VModel.Event / VModel.Auth (validated by C07/C09 and by this correspondence)",
         "Allowed(event, state) enters the handler models as an oracle bit (C07); the driver instantiates it with VModel.Auth.allowedFresh",
-        "ed25519 / VerifyJSON (used by the harness to check the returned signature)"],
+        "ed25519 / VerifyJSON (used by the harness to check the returned signature)",
+        "VModel.Signers.verifyPseudo (C06) as the model of VerifyEventSignatures under JSONVerifierSelf in the PerformInvite ops"],
     "assumptions": [
         "caller contract: queriers, verifier, context non-nil; HandleMakeJoinInput.RoomVersion is known to this server (MustGetRoomVersion panics otherwise)",
-        "the pseudo-ID room version org.matrix.msc4014 is not modelled for HandleSendJoin / HandleInvite / PerformJoin (its paths verify mxid_mapping signatures with real keys): not generated there; HandleInviteV3 is run with it",
-        "PerformInvite is not modelled (C15's statement does not speak of it)",
+        "the pseudo-ID room version org.matrix.msc4014 is not modelled for PerformJoin (GetOrCreateSenderID, mxid_mapping signing, storeMXIDMappings) and is not generated for HandleInvite (pseudo-ID invites arrive through HandleInviteV3, which is run with it); HandleSendJoin's pseudo-ID path is modelled (handshake.sendjoin_pseudo)",
+        "PerformInvite: the invite template comes from the local caller (that it is an m.room.member invite is the caller's contract); VerifyEventSignatures under JSONVerifierSelf, EventBuilder.Build and Allowed are oracles (C06 / C03 / C07), the first instantiated by VModel.Signers.verifyPseudo in the driver; in user-ID rooms the answer of SendInvite is handed back unchecked (stated, not demanded)",
+        "PerformInvite caller contract for the no-panic theorem: non-nil queriers, context, StoreSenderIDFromPublicID and federation client, a 64-byte signing key, no nil PDU from the EventQuerier, a well-formed key from the SenderIDCreator",
         "RestrictedRoomJoinInfo.JoinedUsers lists users of THIS server (querier contract): 'local user entitled to invite' is stated as membership of that list + entitlement"],
 }
